@@ -1,7 +1,7 @@
 """Reference forms (DESIGN Appendix A), written over the term algebra of vg.py.
 
 Every function returns a pair (hi, lo) of f64 terms.  They are the algorithms the properties
-name: Joldes-Muller-Popescu 2017 Alg. 1, 2, 3, 4, 6, 9, 12, 15; qd's renormalisation."""
+name: Joldes-Muller-Popescu 2017 Alg. 1, 2, 3, 4, 6, 7, 9, 12, 15; qd's renormalisation."""
 from .terms import mk
 from .vg import f64c
 
@@ -60,6 +60,11 @@ def DW_PLUS_DW(xh, xl, yh, yl, sub=False):   # Alg. 6 AccurateDWPlusDW
 def DW_TIMES_FP(xh, xl, y):          # Alg. 9 DWTimesFP3
     ch, cl1 = TP(xh, y); cl3 = ffma(xl, y, cl1)
     return FTS(ch, cl3)
+
+def DW_TIMES_FP1(xh, xl, y):         # Alg. 7 DWTimesFP1 (1.5u^2 + 4u^3: inside the 2u^2 the property allows)
+    ch, cl1 = TP(xh, y); cl2 = fmul(xl, y)
+    th, tl1 = FTS(ch, cl2); tl2 = fadd(tl1, cl1)
+    return FTS(th, tl2)
 
 def DW_TIMES_DW(xh, xl, yh, yl):     # Alg. 12 DWTimesDW3
     ch, cl1 = TP(xh, yh); tl0 = fmul(xl, yl); tl1 = ffma(xh, yl, tl0)
